@@ -29,12 +29,14 @@ def run(ctx):
     ctx.rule('C09.R1', 'deliver_local: copy(src, tmp_path(dst)) Ok guards rename(tmp, dst)', floor=3)
     ctx.rule('C09.R2', 'deliver_pull: stream into the staging path; transfer_file_from_remote Ok => copy+flush Ok and status.success(); Ok guards rename', floor=4)
     ctx.rule('C09.R3', 'push: cat > STAGE && [complete?] && mv -f STAGE DST; STAGE = DST.copia-tmp', floor=3)
+    ctx.rule('C09.R5', 'a staging file left by a killed run is taken over: no exclusive create (create_new) on the delivery paths', floor=0)
     ctx.rule('C09.R4', 'no file content created at a non-staging path under run_sync_recursive', floor=2)
     ctx.attempt(tmp_path_rule, ctx, F)
     ctx.attempt(r1, ctx, F)
     ctx.attempt(r2, ctx, F)
     ctx.attempt(r3, ctx, F)
     ctx.attempt(r4, ctx, F)
+    ctx.attempt(r5, ctx, F)
 
 
 def tmp_path_rule(ctx, F):
@@ -267,3 +269,30 @@ def r4(ctx, F):
                   '%s creates file content directly at a non-staging destination path: a kill leaves a truncated live file' % top, term_loc(b, bb))
     if n < 2:
         ctx.missing('C09.R4', 'content creators under run_sync_recursive (found %d)' % n)
+
+
+def r5(ctx, F):
+    """Staging names of the one-way sync are a pure function of the destination (`<dst>.copia-tmp`), and a run that is killed
+    between creating its staging file and renaming it cannot clean up.  So the next run must take the leftover over: the
+    staging file is opened truncating (`File::create`, `create(true).truncate(true)`).  An exclusive create fails with
+    AlreadyExists on the leftover - on every later run, until somebody removes it by hand."""
+    from callgraph import callgraph_of
+    cg = callgraph_of(F)
+    graph = cg.reach(['incremental::run_sync_recursive'])
+    n = 0
+    for b, bb, c in cg.call_sites(lambda c: c.endswith('OpenOptions::create_new') or c.endswith('File::create_new'), within=graph):
+        t = b.blocks[bb]['term']
+        fl = flow_of(b)
+        if c.endswith('OpenOptions::create_new'):
+            v = t['args'][1] if len(t['args']) > 1 else None
+            if v is not None and v['k'] == 'const' and v.get('v') in (0, False):
+                continue
+        n += 1
+        top = b.path.split('::{')[0].split('::')[-1]
+        # a removal of the leftover in the same body before the claim makes the exclusive create harmless
+        cleared = any(fl.cfg.dominates(rb, bb) for rb, rt in fl.calls(lambda x: x.endswith('fs::remove_file')))
+        ctx.check(cleared, 'C09.R5', '%s:exclusive-create-on-a-delivery-path' % top, 'a leftover is removed before the exclusive create',
+                  '%s opens a file of the delivery path with create_new: the staging file a killed run left behind makes this fail with "File exists" on every '
+                  'later run - the same command no longer completes' % top, term_loc(b, bb))
+    if n == 0:
+        ctx.ok('C09.R5', 'no-exclusive-create', 'no create_new under run_sync_recursive: every staging file is opened truncating', None)
